@@ -23,7 +23,7 @@ def spell_variant(c, kind, k, rnd):
         h, s, l = pairs._rgb_to_hsl_int(c)
         return fn_variant("hsl", [str(h), f"{s}%", f"{l}%"], k)
     if kind == "rgbafn":
-        return fn_variant("rgba", [str(r), str(g), str(b), rnd.choice(["0.5", "0.8", "1", "0.25"])], k)
+        return fn_variant("rgba", [str(r), str(g), str(b), rnd.choice(["0.5", "0.8", "1", "0.25", "50", "80"])], k)
     if kind == "hslafn":
         h, s, l = pairs._rgb_to_hsl_int(c)
         return fn_variant("hsla", [str(h), f"{s}%", f"{l}%", rnd.choice(["0.5", "0.85", "1"])], k)
